@@ -14,7 +14,7 @@
                      output of a FRESH evaluation at the requested parameter vector *)
 From Coq Require Import List Arith Bool Lia.
 Import ListNotations.
-From CG3 Require Import Model.Calc Spec.CalcSpec Proofs.CalcProofs.
+From CG3 Require Import Model.Calc Spec.CalcSpec Proofs.CalcProofs Model.CalcScope Proofs.CalcScopeProofs.
 
 (** cells_changed_by: for every set of changed keys the cached program is in
     rank order, holds evaluated cells only, and is closed under dependency *)
@@ -130,6 +130,102 @@ Theorem rules_export_keeps_every_key : forall (V : Type) (s : setting V),
   | SNVar _ _ => [false; false; true; false; false]
   end.
 Proof. exact export_keys. Qed.
+
+(** ** the scope table of one parameter (Model/CalcScope.v): scope tuple -> Setting object.
+
+    [spec_run k rs c x] is the per-cell specification: fold the rules over ONE cell,
+    a rule that covers the cell overwriting (tag, constancy, value).  The tag records
+    which write the cell last saw: TTied k (rule number k, shared by all cells it
+    covers) or TIndep k c (an independent rule gives every cell its own setting). *)
+
+(** latest-write-wins: the specification IS "the last rule whose scope covers the cell" *)
+Theorem scope_last_write_wins : forall (V : Type) (indep_default : bool) (rs1 : list (srule V)) (r : srule V)
+    (rs2 : list (srule V)) (c : scell) (x : cinfo V),
+  covers (ru_scope r) c = true ->
+  (forall r', In r' rs2 -> covers (ru_scope r') c = false) ->
+  spec_run V indep_default 0 (rs1 ++ r :: rs2) c x =
+  mk_cinfo V (if is_indep V indep_default r then TIndep (length rs1) c else TTied (length rs1)) (ru_const r)
+           (rule_val V r (ci_val V (spec_run V indep_default 0 rs1 c x))).
+Proof. exact spec_run_last. Qed.
+
+(** ANY history of scoped set_param_rule calls on any table (interpret_scope,
+    interpret_scopes incl. the split over unmentioned dimensions, assign_all,
+    get_current_bounds, clipping): every cell holds the value and constancy of the
+    last rule covering it; two cells hold the SAME Setting object (one optimisable
+    parameter) iff the same tied rule was the last to cover both *)
+Theorem scope_history_refines : forall (V : Type) (ltb veqb : V -> V -> bool) (mean : list V -> V) (L U : V)
+    (indep_default : bool),
+  (forall x, ltb x x = false) -> ltb U L = false -> veqb U L = false ->
+  forall (rs : list (srule V)) (t0 : table V) (nid0 : nat),
+  NoDup (map fst t0) -> uniform V L U t0 -> (forall c s, In (c, s) t0 -> g_id s < nid0) ->
+  coherent V t0 -> inbounds V ltb L U t0 -> Forall (wf_rule V ltb L U) rs ->
+  exists (t : table V) (n : nat),
+    assign_rules V ltb veqb mean L U indep_default rs (t0, nid0) = Some (t, n) /\
+    map fst t = map fst t0 /\ uniform V L U t /\ coherent V t /\ inbounds V ltb L U t /\
+    forall c s, In (c, s) t ->
+      let x := spec_run V indep_default 0 rs c (info0 V L t0 c) in
+      g_val s = ci_val V x /\ g_const s = ci_const V x /\
+      (g_const s = false -> g_lower s = L /\ g_upper s = U) /\
+      forall c' s', In (c', s') t ->
+        (g_id s = g_id s' <-> ci_tag V x = ci_tag V (spec_run V indep_default 0 rs c' (info0 V L t0 c'))).
+Proof. exact scope_history. Qed.
+
+(** nfp (= number of distinct non-constant Setting objects) depends only on the
+    partition of the cells and on which cells are constant *)
+Theorem scope_nfp_partition : forall (V : Type) (t t' : table V),
+  NoDup (map fst t) -> map fst t' = map fst t ->
+  (forall c s s', In (c, s) t -> In (c, s') t' -> g_const s' = g_const s) ->
+  (forall c1 s1 s1' c2 s2 s2', In (c1, s1) t -> In (c1, s1') t' -> In (c2, s2) t -> In (c2, s2') t' ->
+      (g_id s1' = g_id s2' <-> g_id s1 = g_id s2)) ->
+  nfp V t' = nfp V t.
+Proof. exact nfp_same_partition. Qed.
+
+(** get_param_rules -> apply_param_rules on a fresh controller, at the scope level
+    (composes with rules_roundtrip_setting): same cell -> (value, constancy, bounds)
+    map, same partition, same nfp — PROVIDED every tie group is a box (equals the
+    bounding box of its cells; always true when only one dimension is scoped) *)
+Theorem scope_rules_roundtrip : forall (V : Type) (ltb veqb : V -> V -> bool) (mean : list V -> V) (L U : V)
+    (indep_default : bool),
+  (forall x, ltb x x = false) -> ltb U L = false -> veqb U L = false ->
+  forall (t t0 : table V) (nid0 : nat),
+  NoDup (map fst t) -> uniform V L U t -> inbounds V ltb L U t -> coherent V t -> boxes V t ->
+  map fst t0 = map fst t -> uniform V L U t0 -> (forall c s, In (c, s) t0 -> g_id s < nid0) ->
+  coherent V t0 -> inbounds V ltb L U t0 ->
+  exists (t' : table V) (n : nat),
+    assign_rules V ltb veqb mean L U indep_default (export_rules V indep_default false t) (t0, nid0) = Some (t', n) /\
+    map fst t' = map fst t /\
+    (forall c s s', In (c, s) t -> In (c, s') t' ->
+       g_val s' = g_val s /\ g_const s' = g_const s /\
+       (g_const s = false -> g_lower s' = g_lower s /\ g_upper s' = g_upper s)) /\
+    (forall c1 s1 s1' c2 s2 s2', In (c1, s1) t -> In (c1, s1') t' -> In (c2, s2) t -> In (c2, s2') t' ->
+       (g_id s1' = g_id s2' <-> g_id s1 = g_id s2)) /\
+    nfp V t' = nfp V t.
+Proof. exact scope_roundtrip. Qed.
+
+(** ... and it FAILS for a tie group that is not a box: a parameter tied over
+    2 edges x 2 bins, then one corner set separately — the exported rule of the
+    remainder covers the corner too and is applied after the corner's rule: the
+    imported controller has 1 free parameter instead of 2.  Replayed on the real
+    likelihood function by the check (key lf:roundtrip:non-box-tie-group). *)
+Theorem scope_roundtrip_nonbox_refuted :
+  match assign_rules nat Nat.ltb Nat.eqb nmean 1 100 false ex_rules (ex_t0, 5) with
+  | Some (t, _) =>
+      nfp nat t = 2 /\
+      match assign_rules nat Nat.ltb Nat.eqb nmean 1 100 false (export_rules nat false false t) (ex_t0, 5) with
+      | Some (t', _) => nfp nat t' = 1
+      | None => False
+      end
+  | None => False
+  end.
+Proof. exact scope_roundtrip_nonbox_witness. Qed.
+
+(** the hypotheses of the scope theorems are satisfiable *)
+Theorem scope_hypotheses_hold :
+  NoDup (map fst ex_box) /\ uniform nat 1 100 ex_box /\ inbounds nat Nat.ltb 1 100 ex_box /\ coherent nat ex_box /\
+  boxes nat ex_box /\ map fst ex_t0 = map fst ex_box /\ uniform nat 1 100 ex_t0 /\
+  (forall c s, In (c, s) ex_t0 -> g_id s < 5) /\ coherent nat ex_t0 /\ inbounds nat Nat.ltb 1 100 ex_t0 /\
+  Forall (wf_rule nat Nat.ltb 1 100) ex_rules.
+Proof. exact scope_hypotheses_satisfiable. Qed.
 
 (** the faithful model of updates_postponed WITHOUT try/finally VIOLATES "every
     history ends in the fresh value": a block that raises after an assignment
